@@ -13,16 +13,16 @@ type Delims struct{ L, R, CL, CR string }
 var Default = Delims{"{{", "}}", "{*", "*}"}
 
 type G struct {
-	R       *rand.Rand
-	D       Delims
-	MaxDepth int
-	nvar    int
-	blocks  []string
-	inBlock int
-	forbid  string // operator characters that clash with the delimiters
-	Counts  map[string]int
+	R          *rand.Rand
+	D          Delims
+	MaxDepth   int
+	nvar       int
+	blocks     []string
+	inBlock    int
+	forbid     string // operator characters that clash with the delimiters
+	Counts     map[string]int
 	NoComments bool
-	NoHeaders bool
+	NoHeaders  bool
 }
 
 func New(r *rand.Rand, d Delims) *G {
@@ -37,7 +37,11 @@ func New(r *rand.Rand, d Delims) *G {
 func (g *G) count(k string) { g.Counts[k]++ }
 
 func (g *G) act(body string) string {
-	switch g.R.Intn(6) {
+	k := g.R.Intn(6)
+	if k == 0 && strings.HasSuffix(body, g.D.R[:1]) {
+		k = 5 // "x[:]" + "]]" would read as "x[:" + "]]" + "]": keep a space before the closing delimiter
+	}
+	switch k {
 	case 0:
 		return g.D.L + body + g.D.R
 	case 1:
@@ -143,7 +147,8 @@ func (g *G) primary(depth int) string {
 	case 4:
 		if depth < g.MaxDepth {
 			g.count("paren-chain")
-			return "(" + g.Expr(depth+1) + ")." + g.field()
+			// a parenthesised literal cannot be followed by a field: keep the inner expression non-literal
+			return "(" + g.ident() + " " + g.pickOp([]string{"+", "-", "*", "==", "&&"}) + " " + g.operand(g.MaxDepth) + ")." + g.field()
 		}
 	}
 	g.count("identifier")
@@ -180,7 +185,8 @@ func (g *G) operand(depth int) string {
 	if s == "." {
 		return s
 	}
-	for i := g.R.Intn(3); i > 0; i-- {
+	sliced := false // a slice expression cannot be called, indexed or sliced again
+	for i := g.R.Intn(3); i > 0 && !sliced; i-- {
 		switch g.R.Intn(7) {
 		case 0:
 			g.count("call")
@@ -190,15 +196,19 @@ func (g *G) operand(depth int) string {
 			s += "[" + g.Expr(depth+1) + "]"
 		case 2:
 			g.count("slice-both")
+			sliced = true
 			s += "[" + g.Expr(depth+1) + ":" + g.Expr(depth+1) + "]"
 		case 3:
 			g.count("slice-lo")
+			sliced = true
 			s += "[" + g.Expr(depth+1) + ":]"
 		case 4:
 			g.count("slice-hi")
+			sliced = true
 			s += "[:" + g.Expr(depth+1) + "]"
 		case 5:
 			g.count("slice-none")
+			sliced = true
 			s += "[:]"
 		case 6:
 			g.count("chain-after")
@@ -363,7 +373,7 @@ func (g *G) Item(depth int) string {
 		s += g.List(depth+1, 3)
 		for g.R.Intn(3) == 0 {
 			g.count("else-if")
-			s += g.act("else if " + g.cond(depth)) + g.List(depth+1, 2)
+			s += g.act("else if "+g.cond(depth)) + g.List(depth+1, 2)
 		}
 		if g.R.Intn(2) == 0 {
 			g.count("else")
